@@ -79,22 +79,38 @@ pub fn string_ref(vm: &mut Vm) -> Result<VCell, Error> {
     let s = s.borrow();
     match s.chars().nth(idx) {
         Some(c) => Ok(c.into()),
-        None => Err(InvalidStringIndex(idx, s.chars().count() - 1)),
+        None => Err(InvalidStringIndex(idx, s.chars().count().saturating_sub(1))),
     }
 }
 
-fn char_offset(s: &str, idx: usize) -> Result<usize, Error> {
-    s.char_indices()
-        .nth(idx)
-        .map(|it| it.0)
-        .ok_or_else(|| InvalidStringIndex(idx, s.chars().count() - 1))
-}
+/// Char Range
+///
+/// Resolve the optional character indices [start, end) of a string procedure into
+/// byte offsets, checking that 0 <= start <= end <= length. Returns the byte offsets
+/// and the number of characters in the range.
+fn char_range(
+    s: &str,
+    start: Option<usize>,
+    end: Option<usize>,
+) -> Result<(usize, usize, usize), Error> {
+    let len = s.chars().count();
+    let start = start.unwrap_or(0);
+    let end = end.unwrap_or(len);
 
-fn char_offset_inclusive(s: &str, idx: usize) -> Result<usize, Error> {
-    s.char_indices()
-        .nth(idx)
-        .map(|it| it.0 + it.1.len_utf8())
-        .ok_or_else(|| InvalidStringIndex(idx, s.chars().count() - 1))
+    if start > len {
+        return Err(InvalidStringIndex(start, len.saturating_sub(1)));
+    }
+    if end > len {
+        return Err(InvalidStringIndex(end, len.saturating_sub(1)));
+    }
+    if end < start {
+        return Err(InvalidSyntax(
+            "invalid substring indices: end < start".into(),
+        ));
+    }
+
+    let byte_offset = |idx: usize| s.char_indices().nth(idx).map(|it| it.0).unwrap_or(s.len());
+    Ok((byte_offset(start), byte_offset(end), end - start))
 }
 
 fn char_substring_offset(
@@ -102,34 +118,7 @@ fn char_substring_offset(
     start: Option<usize>,
     end: Option<usize>,
 ) -> Result<(usize, usize), Error> {
-    let len = s.chars().count();
-
-    if let (Some(start), Some(end)) = (start, end) {
-        if start == end {
-            return Ok((0, 0));
-        }
-        if end < start {
-            return Err(InvalidSyntax(
-                "invalid substring indices: end < start".into(),
-            ));
-        }
-    }
-
-    if start == Some(len) {
-        return Ok((0, 0));
-    }
-
-    let start = match start {
-        Some(start) => char_offset(s, start)?,
-        None => 0,
-    };
-
-    let end = match end {
-        Some(end) => char_offset_inclusive(s, end - 1)?,
-        None => s.len(),
-    };
-
-    Ok((start, end))
+    char_range(s, start, end).map(|(start, end, _)| (start, end))
 }
 
 pub fn string_list(vm: &mut Vm) -> Result<VCell, Error> {
@@ -246,13 +235,7 @@ pub fn string_fill(vm: &mut Vm) -> Result<VCell, Error> {
     let mut s = s.borrow_mut();
     let s = s.deref_mut();
 
-    let count = match (start, end) {
-        (Some(start), Some(end)) if end >= start => end - start,
-        (Some(start), None) => s.chars().count() - start,
-        _ => s.chars().count(),
-    };
-
-    let (start, end) = char_substring_offset(s, start, end)?;
+    let (start, end, count) = char_range(s, start, end)?;
     let fill = std::iter::repeat_n(c, count).collect::<String>();
 
     s.replace_range(start..end, &fill);
@@ -268,7 +251,7 @@ pub fn string_set(vm: &mut Vm) -> Result<VCell, Error> {
     let range = s
         .char_indices()
         .nth(idx)
-        .ok_or_else(|| InvalidStringIndex(idx, s.chars().count() - 1))
+        .ok_or_else(|| InvalidStringIndex(idx, s.chars().count().saturating_sub(1)))
         .map(|it| (it.0, it.0 + it.1.len_utf8()))?;
     s.replace_range(range.0..range.1, &c.to_string());
     Ok(VCell::void())
